@@ -122,7 +122,7 @@ def jobs(pid, tier):
         J.append(Job('k8_gc', dict(N=4, L=2, roots=0, nondet=True), need_outcomes=['collected', 'nothing_to_collect']))
         J.append(Job('k7_swap', dict(N=4, L=2, x=0, K=2), need_outcomes=['swapped']))
     if pid == 'C10':
-        J.append(Job('sat', dict(N=4, L=2), need_outcomes=['returned:' + e for e in
+        J.append(Job('sat', dict(N=4, L=2, via=['bdd', 'autoref']), need_outcomes=['returned:' + e for e in
                      ('support', 'essential', 'count', 'pick_iter', 'pick')]))
         J.append(Job('sat', dict(N=4 if q else 5, L=3), need_outcomes=['returned:' + e for e in
                      ('support', 'essential', 'count', 'pick_iter', 'pick')]))
@@ -134,6 +134,8 @@ def jobs(pid, tier):
     if pid == 'C11':
         J.append(Job('copy', dict(N=4, L=2, NT=3, extra=0), need_outcomes=['returned:' + v for v in
                      ('copy_bdd', 'BDD.copy', '_copy.copy_bdd', '_copy.copy_bdds_from', 'autoref.copy')]))
+        J.append(Job('copy', dict(N=2, L=3, NT=2, extra=0, variants=['_copy.copy_vars', 'autoref.copy_vars']),
+                     need_outcomes=['returned:_copy.copy_vars', 'returned:autoref.copy_vars']))
         J.append(Job('copy', dict(N=3, L=2, NT=3, extra=1, variants=['copy_bdd', '_copy.copy_bdd']),
                      need_outcomes=['returned:copy_bdd']))
         J.append(Job('copy', dict(N=4, L=3, NT=2 if q else 3, extra=0, variants=['copy_bdd'] if q else ['copy_bdd', '_copy.copy_bdd']),
